@@ -480,22 +480,26 @@ func checkC16(w *World, r *Report) {
 			}
 			return walk(v, 0)
 		}
-		var limitCmp []*ssa.BasicBlock
-		for _, b := range f.Blocks {
-			for _, in := range b.Instrs {
-				bo, ok := in.(*ssa.BinOp)
-				if !ok {
-					continue
-				}
-				switch bo.Op {
-				case token.LSS, token.GTR, token.LEQ, token.GEQ, token.EQL, token.NEQ:
-					if fromLimit(bo.X) || fromLimit(bo.Y) {
-						limitCmp = append(limitCmp, b)
+		limitCmpOf := func(g *ssa.Function) []*ssa.BasicBlock {
+			var out []*ssa.BasicBlock
+			for _, b := range g.Blocks {
+				for _, in := range b.Instrs {
+					bo, ok := in.(*ssa.BinOp)
+					if !ok {
+						continue
+					}
+					switch bo.Op {
+					case token.LSS, token.GTR, token.LEQ, token.GEQ, token.EQL, token.NEQ:
+						if fromLimit(bo.X) || fromLimit(bo.Y) {
+							out = append(out, b)
+						}
 					}
 				}
 			}
+			return out
 		}
 		sym := NewSym(w)
+		sym.Expand = false
 		isSplitLenOne := func(a *pcAtom) string {
 			if a.subj == "" || !a.set.equal(isetOf(1)) {
 				return ""
@@ -511,30 +515,49 @@ func checkC16(w *World, r *Report) {
 			}
 			return ""
 		}
-		nSucc, nEarly := 0, 0
+		nSucc, nEarly, maxCmp := 0, 0, 0
 		why := ""
-		for _, b := range f.Blocks {
-			ret, ok := b.Instrs[len(b.Instrs)-1].(*ssa.Return)
-			if !ok || len(ret.Results) != 1 || !isNilConst(ret.Results[0]) {
-				continue
+		// the exits of g, and of the functions of the package whose verdict g hands on as its own
+		var exits func(g *ssa.Function, intForm bool, depth int)
+		exits = func(g *ssa.Function, intForm bool, depth int) {
+			limitCmp := limitCmpOf(g)
+			if len(limitCmp) > maxCmp {
+				maxCmp = len(limitCmp)
 			}
-			nSucc++
-			dom := 0
-			for _, lb := range limitCmp {
-				if lb.Dominates(b) {
-					dom++
+			for _, b := range g.Blocks {
+				ret, ok := b.Instrs[len(b.Instrs)-1].(*ssa.Return)
+				if !ok || len(ret.Results) != 1 {
+					continue
+				}
+				here := intForm || pcImplies(sym.PathCond(g.Blocks[0], b, nil), isSplitLenOne, func(env map[string]bool) bool { return env["intform"] }) == ""
+				if c, isC := unspill(ret.Results[0]).(*ssa.Call); isC && depth < 2 {
+					if h := c.Call.StaticCallee(); h != nil && h.Blocks != nil && h.Pkg == g.Pkg && len(limitCmp) < 4 {
+						exits(h, here, depth+1)
+						continue
+					}
+				}
+				if !isNilConst(ret.Results[0]) {
+					continue
+				}
+				nSucc++
+				dom := 0
+				for _, lb := range limitCmp {
+					if lb.Dominates(b) {
+						dom++
+					}
+				}
+				if dom >= 4 {
+					continue
+				}
+				nEarly++
+				if !here {
+					why = fmt.Sprintf("a success exit (%s) is preceded by only %d of the comparisons with the 64-bit limits and is not the integer-only form", w.PosStr(ret.Pos()), dom)
 				}
 			}
-			if dom >= 4 {
-				continue
-			}
-			nEarly++
-			if msg := pcImplies(sym.PathCond(f.Blocks[0], b, nil), isSplitLenOne, func(env map[string]bool) bool { return env["intform"] }); msg != "" {
-				why = fmt.Sprintf("a success exit (%s) is preceded by only %d of the comparisons with the 64-bit limits and is not the integer-only form (%s)", w.PosStr(ret.Pos()), dom, msg)
-			}
 		}
-		if why == "" && (nSucc == nEarly || len(limitCmp) < 4) {
-			why = fmt.Sprintf("%d success exits, %d of them early; %d limit comparisons", nSucc, nEarly, len(limitCmp))
+		exits(f, false, 0)
+		if why == "" && (nSucc == nEarly || maxCmp < 4) {
+			why = fmt.Sprintf("%d success exits, %d of them early; %d limit comparisons", nSucc, nEarly, maxCmp)
 		}
 		r.Check(why == "", "R16.7", "validateDecimal64String success exits", f.Pos(), "every success exit other than the integer-only form is dominated by the four outer comparisons with the 64-bit limits", why+": an early success exit skips the exact comparison with the 64-bit limits, leaving only the float comparison, which cannot tell max from max+1 unit")
 	})
